@@ -138,14 +138,20 @@ func (ltx levelTransaction) Get(id []byte) ([]byte, error) {
 
 // View run iterator on bolt keyvalue store
 func (ltx levelTransaction) View(u func(it kvi.KVIterator) error) error {
-	it := ltx.db.NewIterator(nil, nil)
+	//iterate and read the transaction, so that it sees its own writes
+	it := ltx.tx.NewIterator(nil, nil)
 	defer it.Release()
-	lit := levelIterator{ltx.db, it, true, nil, nil}
+	lit := levelIterator{ltx.tx, it, true, nil, nil}
 	return u(&lit)
 }
 
+// levelReader is the read method shared by a database and a transaction
+type levelReader interface {
+	Get(key []byte, ro *opt.ReadOptions) (value []byte, err error)
+}
+
 type levelIterator struct {
-	db      *leveldb.DB
+	db      levelReader
 	it      iterator.Iterator
 	forward bool
 	key     []byte
@@ -192,21 +198,32 @@ func (lit *levelIterator) Seek(id []byte) error {
 		lit.value = copyBytes(lit.it.Value())
 		return nil
 	}
+	lit.key = nil
+	lit.value = nil
 	return fmt.Errorf("Invalid")
 }
 
 func (lit *levelIterator) SeekReverse(id []byte) error {
 	lit.forward = false
+	valid := false
 	if lit.it.Seek(id) {
+		valid = true
 		//Level iterator will land on the first value above the request
 		//if we're there, move once to get below start request
 		if bytes.Compare(id, lit.it.Key()) < 0 {
-			lit.it.Prev()
+			valid = lit.it.Prev()
 		}
+	} else {
+		//every key is below the request, start from the last one
+		valid = lit.it.Last()
+	}
+	if valid {
 		lit.key = copyBytes(lit.it.Key())
 		lit.value = copyBytes(lit.it.Value())
 		return nil
 	}
+	lit.key = nil
+	lit.value = nil
 	return fmt.Errorf("Invalid")
 }
 
